@@ -1,6 +1,6 @@
 """C14 - all input formats describe the same signed group (thin structural clauses)."""
 from ..rules_flow import Flow
-from ..rules_k import K4_codec, K5_graph_form, K13_matrix_form, E2_graph_circuit
+from ..rules_k import K4_codec, K5_graph_form, K13_matrix_form, K15_junk_characters, E2_graph_circuit
 
 
 def run(tree, rep, tier):
@@ -9,11 +9,12 @@ def run(tree, rep, tier):
     K4_codec(rep, flow, tier)
     K5_graph_form(rep, flow)
     K13_matrix_form(rep, flow)
+    K15_junk_characters(rep, flow)
     E2_graph_circuit(rep, flow)
     rep.trusted += ["Q4"]
     rep.decided += ["Pauli-character and sign tables of parser and printer are mutually inverse; string -> object -> string round-trips (K4, exhaustive over one generator of a 3-qubit list)",
                     "the reversed export is the exact mirror image after the sign (B4)", "the graph form is (I, adjacency, 0), i.e. generators X_v Z_N(v) (K5, all graphs on 2..4 vertices)",
                     "the graph-state circuit is total: defined for every graph including the edgeless one (E2)",
-                    "the matrix form stores the given X part, Z part and signs as they are, signs defaulting to 0 (K13: a pass-through, decided on asymmetric samples)"]
+                    "characters that are no Pauli are refused, not read as some Pauli (K15, probed alphabet)", "the matrix form stores the given X part, Z part and signs as they are, signs defaulting to 0 (K13: a pass-through, decided on asymmetric samples)"]
     rep.not_decided += ["circuit input format: tableau slicing vs Qiskit's layout and sign conventions (value-level / Qiskit semantics)",
                         "that the object built from a circuit generates the stabilizer group of circuit|0..0> including signs"]
